@@ -115,11 +115,15 @@ example : (sniffTcp [.data [22, 3, 1, 0, 100, 1, 0, 0], .stall, .data [82, 69, 8
     relayBytes (sniffTcp [.data [22, 3, 1, 0, 100, 1, 0, 0], .stall, .data [82, 69, 83, 84], .eof]) .prefixRead
       = ([22, 3, 1, 0, 100, 1, 0, 0, 82, 69, 83, 84], none) := by decide
 
-/-- **The sniffer does not wait past its deadline.** If nothing arrives before the armed read
-deadline the loop ends there with the timeout answer; it consumed nothing after the stall and left
-no error latched for the relay. -/
-theorem sniff_stops_at_deadline (buf : Bytes) (nm : Bool) (rest : List Ev) :
-    sniffLoop buf nm (.stall :: rest) = ⟨.error .timeout, nm, buf, none, rest⟩ := rfl
+/-- **Soundness of the stream answer.** Whatever the client sends and however it is cut, a name
+`SniffTcp` reports is `NormalizeDomain` of a name the bytes read so far carry — a `host_name` entry
+(TLS) or the value of a complete `Host` line (HTTP) — and those bytes are a prefix of what the
+client sent. -/
+theorem sniff_tcp_sound (script : List Ev) (n : Bytes) (h : (sniffTcp script).result = .ok n) :
+    ReportedFrom (sniffTcp script).buf n ∧ ∃ t, clientBytes script = (sniffTcp script).buf ++ t := by
+  refine ⟨sniffLoop_sound script [] false n h, ?_⟩
+  have := sniffLoop_buf_prefix script [] false
+  simpa [sniffTcp] using this
 
 /-! ## HTTP/1 -/
 
@@ -129,6 +133,18 @@ trimmed), "not found" when there is none or it is empty — headers in any order
 headers, any body. -/
 theorem http_host_found (h : HttpHead) (hwf : h.WF) : sniffHttp (encodeHead h) = hostSpec h.headers :=
   sniffHttp_encodeHead h hwf
+
+/-- **Soundness (HTTP).** Whatever the bytes, a name reported by `SniffHttp` is the trimmed,
+non-empty value of a complete `Host` header line of the buffer: the line starts the buffer or
+follows a CRLF, is terminated by a CRLF, is not a folded continuation line, and its field name is
+`Host`.  In particular a head whose last line is cut off by the end of the read never yields a
+truncated name (fix6). -/
+theorem http_host_sound (b d : Bytes) (h : sniffHttp b = .ok d) : HostLineIn b d := sniffHttp_sound b d h
+
+/-- a head cut inside the Host value: not found, not "exam"; a folded line is not the Host header -/
+example : sniffHttp (str "GET / HTTP/1.1\r\nCookie: x=y\r\nHost: exam") = .error .notFound ∧
+    sniffHttp (str "GET / HTTP/1.1\r\nX-A: b\r\n Host: evil.example\r\nHost: good.example\r\n\r\n") = .ok (str "good.example") := by
+  decide
 
 def exampleHead : HttpHead :=
   ⟨str "GET", str "http://x/ HTTP/1.1", [(str "Accept", str " */*"), (str "hOsT ", str "  a.example:8080 "), (str "Host", str "b")],
@@ -140,6 +156,38 @@ example : exampleHead.WF ∧ hostSpec exampleHead.headers = .ok (str "a.example:
   intro kv hkv
   simp only [exampleHead, List.mem_cons, List.not_mem_nil, or_false] at hkv
   rcases hkv with rfl | rfl | rfl <;> decide
+
+/-- An HTTP/1 request head that arrives in one read is recognised by `SniffTcp`: the answer is the
+`Host` value through `NormalizeDomain`, whatever follows in the script. -/
+theorem sniff_tcp_http_one_read (h : HttpHead) (hwf : h.WF) (tail : List Ev) :
+    (sniffTcp (.data (encodeHead h) :: tail)).result =
+      match hostSpec h.headers with
+      | .ok d => .ok (normalizeDomain d)
+      | .error e => .error e := by
+  obtain ⟨_, _, _, _, _, _, _, c, r, hcr, _, _, _⟩ := method_facts h.method hwf.1
+  have hne : encodeHead h ≠ [] := by simp [encodeHead, hcr]
+  have h22 : c ≠ 22 := by
+    have hm := hwf.1
+    rw [httpMethods_eq] at hm
+    simp only [List.mem_cons, List.not_mem_nil, or_false] at hm
+    rcases hm with hm | hm | hm | hm | hm | hm | hm | hm | hm | hm | hm | hm | hm | hm | hm | hm <;>
+      (rw [hm] at hcr; cases hcr; decide)
+  have htls : sniffTls (encodeHead h) = .error .notApplicable := by
+    unfold sniffTls
+    split
+    · rfl
+    · rw [if_pos (Or.inl (by simp [encodeHead, hcr, h22]))]
+  have hg : sniffGroupTcp (encodeHead h) = match hostSpec h.headers with
+      | .ok d => .ok (normalizeDomain d)
+      | .error e => .error e := by
+    unfold sniffGroupTcp
+    rw [htls, sniffHttp_encodeHead h hwf]
+    cases hostSpec h.headers <;> rfl
+  unfold sniffTcp
+  rw [sniffLoop, List.nil_append, if_neg hne, hg]
+  cases hs : hostSpec h.headers with
+  | ok d => rfl
+  | error e => rw [hostSpec_err _ e hs]
 
 /-! ## QUIC -/
 
@@ -163,13 +211,14 @@ theorem reassembly_keeps_slices (S : Bytes) (flight : List (Bytes × List Block)
 message into CRYPTO frames any way at all — any sizes, any order, duplicates and overlaps, PADDING
 and PING frames in between, any varint widths, spread over any number of packets (hence
 datagrams): if together the frames cover the message, then after the last packet the reassembled
-stream is the message itself and the locator walk answers the carried name. -/
+stream is the message itself, the locator walk answers the carried name, and the stream counts as
+complete (so `SniffUdp` stops asking for more datagrams, whatever the answer). -/
 theorem quic_flight_found (ch : ClientHello) (hwf : ch.WF) (flight : List (List Item × Nat))
     (hfit : ∀ p ∈ flight, ∀ it ∈ p.1, it.frame.Fits)
     (hw : ∀ p ∈ flight, ∀ b ∈ cryptoBlocks p.1, Within (handshake ch) b)
     (hcov : ∀ q, q < (handshake ch).length → ∃ p ∈ flight, ∃ b ∈ cryptoBlocks p.1, covers b q) :
     ∃ cr, feedPayloads [] (flight.map fun p => encodeItems p.1 p.2) = .ok cr ∧
-      extractSni (newLinear cr) = specResult ch := by
+      extractSni (newLinear cr) = specResult ch ∧ helloComplete cr = true := by
   have hpos : 0 < (handshake ch).length := by simp [handshake]
   let fl : List (Bytes × List Block) := flight.map fun p => (encodeItems p.1 p.2, cryptoBlocks p.1)
   have hmap : fl.map Prod.fst = flight.map fun p => encodeItems p.1 p.2 := by
@@ -179,7 +228,7 @@ theorem quic_flight_found (ch : ClientHello) (hwf : ch.WF) (flight : List (List 
     simp only [fl, List.mem_map] at hpf
     obtain ⟨p, hp, rfl⟩ := hpf
     exact ⟨p, hp, rfl⟩
-  refine ⟨[⟨0, handshake ch⟩], ?_, extractSni_complete ch hwf⟩
+  refine ⟨[⟨0, handshake ch⟩], ?_, extractSni_complete ch hwf, helloComplete_handshake ch⟩
   rw [← hmap]
   apply feed_complete_aux (handshake ch) hpos fl
   · intro pf hpf
@@ -208,35 +257,6 @@ example : feedPayloads [] ((exampleFlight.take 1).map fun p => encodeItems p.1 p
   refine ⟨by decide, ⟨.missingCrypto, by decide⟩, by decide, ?_⟩
   rw [extractSni_complete exampleHello exampleHello_wf]
   decide
-
-/-- **The datagram is handed on unaltered.** `sniffQuicBlock` lets `DecryptQuic_` rewrite, in
-place, the first byte and the four packet-number bytes of the buffered datagram (to any values)
-and puts back the saved copies afterwards: the buffer is byte for byte what it was. -/
-theorem unprotect_then_restore (buf : Bytes) (pnOff f0 : Nat) (pn : Bytes) (h1 : 1 ≤ pnOff)
-    (h2 : pnOff + 4 ≤ buf.length) (hpn : pn.length = 4) :
-    restoreHeader (unprotectInPlace buf pnOff f0 pn) pnOff (buf.getD 0 0) (slice buf pnOff (pnOff + 4)) = buf :=
-  unprotect_restore buf pnOff f0 pn h1 h2 hpn
-
-example : unprotectInPlace [0xc3, 0, 0, 0, 1, 9, 9, 9, 9, 5] 5 0xc0 [0, 0, 0, 2] = [0xc0, 0, 0, 0, 1, 0, 0, 0, 2, 5] ∧
-    restoreHeader [0xc0, 0, 0, 0, 1, 0, 0, 0, 2, 5] 5 0xc3 [9, 9, 9, 9] = [0xc3, 0, 0, 0, 1, 9, 9, 9, 9, 5] := by decide
-
-/-- **Datagrams are kept as they came, in order.** Neither appending nor sniffing changes a
-datagram the packet sniffer already holds; `Data()` is the empty first element followed by the
-appended datagrams in ingress order. -/
-theorem udp_data_kept (oracle : List Sealed) (s : Pkt) (d : Bytes) :
-    (s.append d).data = s.data ++ [d] ∧ ((s.append d).sniffUdp oracle).2.data = s.data ++ [d] := by
-  refine ⟨rfl, ?_⟩
-  unfold Pkt.sniffUdp
-  split
-  · rfl
-  split
-  · rfl
-  split
-  · rfl
-  simp only []
-  split
-  · rfl
-  · split <;> rfl
 
 /-- **A final answer is never withheld.** After `SniffUdp`, the flow is asked to wait for more
 datagrams only while the ClientHello is still incomplete: once the reassembled CRYPTO stream holds
